@@ -5,6 +5,7 @@ import Mathlib.Algebra.BigOperators.Ring.Finset
 import Mathlib.Algebra.BigOperators.Group.List.Basic
 import Mathlib.Tactic.NormNum
 import Mathlib.Tactic.LinearCombination
+import Mathlib.Tactic.Positivity
 /-
 C18 - Poisson/Laplace solvers return solutions of the discrete problem.
 Theorems about `PdeVerif.Matrix` (model of the scipy `_get_laplace_matrix` assembly loops): the
@@ -216,15 +217,38 @@ theorem polar_matrix_eq_laplace_with_bc (N : Nat) (r : Int → K) (dr : K) (lo h
   push_cast
   ring
 
-/-- full disk (`r_min = 0`): the first row `[-2s, 2s]` needs no boundary condition - it equals the
-polar Laplacian at the first cell (`r = dr/2`) for *every* value of the inner ghost cell -/
+/-- full disk (`r_min = 0`): the first row needs no inner boundary condition - skipping the inner
+virtual point (as the source does) gives the polar Laplacian at the first cell (`r = dr/2`) for
+*every* value of the inner ghost cell, also on a one-cell grid where the outer neighbour is a
+virtual point -/
 theorem polar_rmin0_row_eq_laplace (N : Nat) (r : Int → K) (dr : K) (hdr : dr ≠ 0) (lo hi : BCData K)
-    (hr : r 1 = dr / 2) (x : Nat → K) (a : Arr K) (h0 : a [1] = x 0) (h1 : a [2] = x 1) :
+    (hr : r 1 = dr / 2) (x : Nat → K) (a : Arr K) (h0 : a [1] = x 0)
+    (h1 : a [2] = nbHi N 0 hi x) :
     progSum (polarRow N r dr true lo hi 0).2 x + (polarRow N r dr true lo hi 0).1 = polarLaplace r dr a 1 := by
-  unfold polarRow polarLaplace progSum
-  simp only [and_self, if_true, List.map_cons, List.map_nil, List.sum_cons, List.sum_nil]
-  norm_num
-  rw [hr, h0, h1]
+  have h := axisOps_apply N 0 (1 / (dr * dr) - 1 / (2 * r 1 * dr))
+    (1 / (dr * dr) + 1 / (2 * r 1 * dr)) (noBC : BCData K) hi id x
+  have hlo : nbLo 0 (noBC : BCData K) (fun k => x (id k)) = 0 := by
+    simp [nbLo, noBC, BCData.eval]
+  rw [hlo] at h
+  have hrow : progSum (polarRow N r dr true lo hi 0).2 x + (polarRow N r dr true lo hi 0).1
+      = (-2 * (1 / (dr * dr))) * x 0
+        + (progSum (axisOps N 0 (1 / (dr * dr) - 1 / (2 * r 1 * dr)) (1 / (dr * dr) + 1 / (2 * r 1 * dr))
+            (noBC : BCData K) hi id).2 x
+          + (axisOps N 0 (1 / (dr * dr) - 1 / (2 * r 1 * dr)) (1 / (dr * dr) + 1 / (2 * r 1 * dr))
+            (noBC : BCData K) hi id).1) := by
+    unfold polarRow
+    simp only [and_self, if_true, Nat.cast_zero, zero_add]
+    unfold progSum
+    simp only [List.map_cons, List.sum_cons]
+    push_cast
+    ring
+  rw [hrow, h]
+  unfold polarLaplace
+  have e3 : ((1:Int) + 1) = 2 := by norm_num
+  have e4 : ((1:Int) - 1) = 0 := by norm_num
+  rw [e3, e4, h0, h1, hr]
+  simp only [id]
+  push_cast
   field_simp
   ring
 
